@@ -13,4 +13,6 @@ func init() {
 	reg.Register("c16.history.signed", "C16", signedHistory)
 	reg.Register("c16.history.env", "C16", envHistory)
 	reg.Register("c16.history.builder", "C16", builderHistory)
+	reg.Register("c16.buffers.env", "C16", buffersEnv)
+	reg.Register("c16.buffers.signed", "C16", buffersSigned)
 }
